@@ -346,9 +346,27 @@ def mutate(tokens, rng):
         j = min(i, len(toks) - 2)
         toks[j], toks[j + 1] = toks[j + 1], toks[j]
         return toks, "swap"
-    if k < 0.85:
+    if k < 0.80:
         toks[i] = T(rng.choice(KEYWORDS))
         return toks, "kwsubst"
+    if k < 0.86:
+        # grammar-aware: flip a name separator (a.b <-> a:b) - function names, method calls, field access
+        seps = [j for j, t in enumerate(toks) if t.kind == "op" and t.text in (b".", b":")]
+        if seps:
+            j = rng.choice(seps)
+            toks[j] = T(":" if toks[j].text == b"." else ".")
+            return toks, "sepflip"
+    if k < 0.92:
+        # grammar-aware: extend a name by one more segment (`a:m` -> `a:m.x`, `a.b` -> `a.b:c`, `x` -> `x.y`)
+        names = [j for j, t in enumerate(toks) if t.kind == "name"]
+        if names:
+            j = rng.choice(names)
+            toks[j + 1:j + 1] = [T(rng.choice([".", ":"])), Tok("name", rng.choice([b"x", b"m", b"n1"]))]
+            return toks, "segment"
+    if k < 0.95:
+        toks.insert(i, T(rng.choice(["(", ")", "{", "}", "[", "]", "=", ",", ";", ".", ":", "::", "..", "...", "<", ">", "#", "-",
+                                     "end", "then", "do", "local", "function", "return"])))
+        return toks, "insert"
     toks[i] = T(rng.choice(["(", ")", "{", "}", "[", "]", "=", ",", ";", ".", ":", "::", "..", "...", "<", ">", "#", "-"]))
     return toks, "opsubst"
 
